@@ -278,6 +278,15 @@ def run_case(ctx, case):
             return o.viol("p256|from_raw", "create_public_ecc_key_from_raw_fmt does not round-trip")
         if bcrypto.create_public_ecc_key_from_der_fmt(der).to_raw_bin_fmt() != raw:
             return o.viol("p256|from_der", "create_public_ecc_key_from_der_fmt(...).to_raw_bin_fmt differs")
+        # the same key handed over in every other valid DER form must convert to the same raw 64 bytes / canonical DER
+        for par, pe in PUB_ENC:
+            alt = vk.to_der(point_encoding=pe, curve_parameters_encoding=par)
+            k2 = bcrypto.create_public_ecc_key_from_der_fmt(alt)
+            if k2.to_raw_bin_fmt() != raw:
+                return o.viol("p256|from_der-noncanonical", "a P-256 key loaded from %s/%s DER converts to %d raw bytes that are not X||Y" % (
+                    par, pe, len(k2.to_raw_bin_fmt())))
+            if k2.to_der_fmt() != der:
+                return o.viol("p256|to_der-noncanonical", "a P-256 key loaded from %s/%s DER is not re-encoded in the canonical form BEC2 assumes" % (par, pe))
         return o
     if kind == "prefix":
         cur = STD[case[1]]
